@@ -182,7 +182,7 @@ def run(ctx):
             os.remove(q)
     # ---- (b) re-serialised variants through the model's independent serialiser --------
     for kind, m, doc0 in parsed_for_variants:
-        for variant in ("same", "no_pseudo", "permuted", "no_tail", "tail", "no_refs_tail"):
+        for variant in ("same", "no_pseudo", "permuted", "no_tail", "tail", "no_refs_tail", "unmapped"):
             if kind == "csi":
                 _, ms, depth, aux, bins, counts, nnc = m
                 pseudo = ((1 << (depth + 1) * 3) - 1) // 7 + 1
@@ -200,6 +200,13 @@ def run(ctx):
                 tail = []
             elif variant == "tail":
                 tail = [rnd.randint(0, 2**40)]
+            elif variant == "unmapped":
+                # pseudo-bins whose second chunk (n_mapped, n_unmapped) carries unmapped records too (as htslib
+                # writes for placed-but-unaligned reads): the count of a sequence is the sum of both
+                contigs = [[[b[0], b[1], [list(b[2][0]), [b[2][1][0], b[2][1][1] + rnd.randint(1, 9)]]] if (b[0] == pseudo and len(b[2]) == 2) else b for b in bs]
+                           for bs in contigs] if kind == "csi" else \
+                          [[[b[0], [list(b[1][0]), [b[1][1][0], b[1][1][1] + rnd.randint(1, 9)]]] if (b[0] == pseudo and len(b[1]) == 2) else b for b in bs]
+                           for bs in contigs]
             elif variant == "no_refs_tail":
                 # an index without any reference sequence (what htslib writes for unplaced records only)
                 contigs = []
